@@ -265,7 +265,7 @@ func run(c Case) kit.Result {
 var spec = kit.Spec[Case]{
 	Prop: "C27", Name: "main",
 	Rule:  "1..8 records of one key with sequence numbers / expiries / values drawn from pools of 1-3 (forced ties; expiries differing by nanoseconds), some with signatureV2 stripped, some byte-identical duplicates; Validator.Select under all orders (n<=5) or 20 sampled orders must return bytes equal to the reference maximum of (hasV2, seq, expiry, bytes); non-trivial = at least two distinct records tie on (seq, expiry)",
-	Quick: 2500, Thorough: 25000,
+	Quick: 2500, Thorough: 15000,
 	Gen: gen, Run: run,
 	Sample: func(c Case) any {
 		return map[string]any{"key": c.Key, "seqs": c.Seqs, "eols": c.Eols, "recs": c.Recs}
